@@ -243,6 +243,16 @@ func (r *Rtmp2RtspRemuxer) doAnalyze() {
 			}
 		}
 
+		// metadata中可能只有audiocodecid而没有audiosamplerate，此时使用默认采样率
+		if r.audioSampleRate <= 0 {
+			switch r.audioPt {
+			case base.AvPacketPtG711A, base.AvPacketPtG711U:
+				r.audioSampleRate = pcmDefaultSampleRate
+			case base.AvPacketPtOpus:
+				r.audioSampleRate = opusDefaultSampleRate
+			}
+		}
+
 		// 回调sdp
 		videoInfo := sdp.VideoInfo{
 			VideoPt: r.videoPt,
